@@ -1,6 +1,6 @@
 #!/usr/bin/env python3
 """Regenerates /verif/MANIFEST.json from the drivers present in mc/props and mc/manifest_meta.json."""
-import json, os, re, sys
+import ast, json, os, re, sys
 V = os.path.dirname(os.path.dirname(os.path.abspath(__file__)))
 meta = json.load(open(os.path.join(V, "mc", "manifest_meta.json")))
 props = [json.loads(l) for l in open(os.path.join(V, "properties.jsonl"))]
@@ -9,6 +9,23 @@ for p in props:
   pid = p["id"]
   path = os.path.join(V, "mc", "props", pid.lower() + ".py")
   m = meta["checks"].get(pid)
+  if os.path.exists(path) and m is None and pid in meta.get("enabled", []):
+    # derive the manifest text from the driver itself (docstring, RULE, ASSUMPTIONS)
+    tree = ast.parse(open(path).read())
+    consts = {}
+    for n in tree.body:
+      if isinstance(n, ast.Assign) and isinstance(n.targets[0], ast.Name):
+        try:
+          consts[n.targets[0].id] = ast.literal_eval(n.value)
+        except Exception:
+          pass
+    doc = " ".join((ast.get_docstring(tree) or "").split())
+    m = {
+      "engine": consts.get("ENGINE", "space+parity"),
+      "technique": consts.get("TECHNIQUE", "bounded-exhaustive enumeration of the stated finite space executed on the real kernels: " + consts.get("RULE", "")[:260]),
+      "text": doc[:900],
+      "note": "; ".join(consts.get("ASSUMPTIONS", []))[:600] or "trusts MuJoCo C 3.13 as the specification; CPU backend only",
+    }
   if os.path.exists(path) and m and not m.get("disabled"):
     src = open(path).read()
     lvl = re.search(r'^LEVEL\s*=\s*"(\w+)"', src, re.M).group(1)
